@@ -24,7 +24,7 @@ import (
 )
 
 type c18Case struct {
-	Cfg string   `json:"cfg"` // "" or "lim1" (server advertises MAX_CONCURRENT_STREAMS=1)
+	Cfg string   `json:"cfg"` // "", "lim1" (server advertises MAX_CONCURRENT_STREAMS=1) or "strict-lim1" (… and Transport.StrictMaxConcurrentStreams)
 	Ev  []string `json:"ev"`
 }
 
@@ -219,6 +219,25 @@ func (m *c18Mon) quiescent(final bool) {
 				}
 			}
 		}
+		if !final && !r.finished() && len(rq.abortedOn) > 0 && len(rq.abortedOn) <= 2 {
+			// above a GOAWAY's last-stream-id and still running: it must have moved to another connection by now
+			// (first retry is immediate, the second one waits 1-1.1 s; 1.5 s have passed)
+			moved := false
+			for ci := range onConn {
+				if !rq.abortedOn[ci] {
+					moved = true
+				}
+			}
+			first := false
+			for ci := range rq.abortedOn {
+				if rq.firstErrOn[ci] {
+					first = true
+				}
+			}
+			if !moved && !first {
+				m.fail("request-above-last-stream-id-left-on-connection/"+c18BodyClass(r.body), "request %d (%s body) was above the GOAWAY's last-stream-id; 1.5 s later it has neither failed nor been sent on another connection; history:%s", r.idx, c18BodyClass(r.body), h.history())
+			}
+		}
 		if final && !r.finished() {
 			m.fail("request-left-pending", "request %d never completed although every connection was closed; history:%s", r.idx, h.history())
 		}
@@ -264,10 +283,10 @@ func (m *c18Mon) settle(lim1 bool) {
 }
 
 func c18Exec(t testing.TB, w *vx.W, cs c18Case) {
-	h := c17cliNew(t, false)
+	h := c17cliNew(t, strings.HasPrefix(cs.Cfg, "strict"))
 	defer h.finish()
 	m := &c18Mon{w: w, h: h, cm: map[int]*c18ConnMon{}, rm: map[int]*c18ReqMon{}, feat: map[string]bool{}}
-	lim1 := cs.Cfg == "lim1"
+	lim1 := strings.HasSuffix(cs.Cfg, "lim1")
 	for _, ev := range cs.Ev {
 		conns := h.connList()
 		connOf := func(b byte) *c17Conn {
@@ -529,7 +548,7 @@ func c18Gen(cfg string, depth int, o c18GenOpts, prefix []string, yield func(c18
 func TestVerif_C18(t *testing.T) {
 	vx.Run(t, "C18", func(c *vx.Ctx) {
 		depth := vx.Pick(c, 4, 5)
-		c.Rule(fmt.Sprintf("every statically legal sequence of 1..%d events (shortest first) over {Q / Qr / Qo: new request without body / with a replayable body / with a one-shot body (<=3), G<conn><L><code>: GOAWAY with last-stream-id L in {0,1,3,5,2^31-1} and code NO_ERROR or ENHANCE_YOUR_CALM (<=2 per case, a second one never raises L), E<conn><j> response with END_STREAM on the j-th stream of the connection, R<conn><j> RST_STREAM, X<conn> the server closes the connection} on up to 3 connections, with and without MAX_CONCURRENT_STREAMS=1, plus seeded prefixes; a real Transport in its own synctest bubble, new connections are greeted with SETTINGS at once, 1.5 s of fake time pass after every event (retry back-off), and at the end of every case the server side closes all connections; a case is non-trivial when all its events were applicable at run time", depth))
+		c.Rule(fmt.Sprintf("every statically legal sequence of 1..%d events (shortest first) over {Q / Qr / Qo: new request without body / with a replayable body / with a one-shot body (<=3), G<conn><L><code>: GOAWAY with last-stream-id L in {0,1,3,5,2^31-1} and code NO_ERROR or ENHANCE_YOUR_CALM (<=2 per case, a second one never raises L), E<conn><j> response with END_STREAM on the j-th stream of the connection, R<conn><j> RST_STREAM, X<conn> the server closes the connection} on up to 3 connections, with and without MAX_CONCURRENT_STREAMS=1 (pooled, and with StrictMaxConcurrentStreams so that requests wait on the connection that receives the GOAWAY), plus seeded prefixes; a real Transport in its own synctest bubble, new connections are greeted with SETTINGS at once, 1.5 s of fake time pass after every event (retry back-off), and at the end of every case the server side closes all connections; a case is non-trivial when all its events were applicable at run time", depth))
 		c.Assume("scope note of the design: the first stream of a connection (id 1) above the last-stream-id of a GOAWAY that carries an error code is deliberately not retried by the Transport (setGoAway: \"retrying the request on a new one probably isn't going to work\"); for it only \"an error is delivered, no duplicate\" is required")
 		c.Assume("a RoundTrip error counts as reported-retryable when the Transport's own canRetryError accepts it or it wraps the GOAWAY / unusable-connection cause (one-shot bodies cannot be replayed)")
 		c.Assume("the harness never answers or resets a stream above the last-stream-id it announced, and a second GOAWAY never raises the last-stream-id (RFC 9113 §6.8)")
@@ -537,7 +556,7 @@ func TestVerif_C18(t *testing.T) {
 		allReqs := []string{"Q", "Qr", "Qo"}
 		o := c18GenOpts{maxQ: 3, reqs: vx.Pick(c, quickReqs, allReqs), lasts: vx.Pick(c, "013M", "0135M"), maxG: 2, maxConns: vx.Pick(c, 2, 3)}
 		run := func(part, cfg string, d int, o c18GenOpts, prefix []string) {
-			o.lim1 = cfg == "lim1"
+			o.lim1 = cfg == "lim1" // in strict mode the second request waits on the same connection
 			vx.Enumerate(c, part, vx.Opts{Serial: true, Crumb: true}, func(yield0 func(c18Case) bool) {
 				yield := c15Yield(c, yield0)
 				if prefix != nil && !yield(c18Case{Cfg: cfg, Ev: prefix}) {
@@ -553,6 +572,7 @@ func TestVerif_C18(t *testing.T) {
 		run("seed-error-goaway-first-stream", "", sd, so, []string{"Qr", "Qo", "Ga0e"})
 		run("seed-lim1-two-conns", "lim1", sd, so, []string{"Q", "Qr"})
 		run("core", "", depth, o, nil)
+		run("strict-lim1", "strict-lim1", depth, o, nil)
 		run("lim1", "lim1", depth-1, o, nil)
 	})
 }
